@@ -93,7 +93,7 @@ ASSUMPTIONS = [
     "1e-13 * kappa(s)^2 * ||H||_F, kappa <= 1e3 (quick) / 1e4 (thorough)",
 ]
 
-QUICK_BUDGET_S = 90
+QUICK_BUDGET_S = 300
 THOROUGH_BUDGET_S = 1500
 
 MAX_SIZE = 1200
